@@ -208,4 +208,102 @@ func checkHeredocsReadInsideWindow(p *Prog, r *Result, pkg *packages.Package, ru
 			"pending here-document bodies are read with no node open on some path to this call: if the input ends there the `unclosed here-document` error is computed with openNodes == 0 and is not incomplete, although the body simply has not been supplied yet")
 	}
 	r.Notef("%s: %d parser-side doHeredocs calls; %d of %d functions run only inside an open-node window", rule, n, nWin, len(declared))
+
+	// The lexer's own call (next(), at a newline) is inside the window only if every token of a statement — its
+	// terminator included — is read before the window closes. So in a function that maintains the window, once
+	// p.openNodes-- has run and until the next p.openNodes++, the only call that may advance the lexer is
+	// got(_Newl): it advances only when the token in hand is a newline, by which time the pending bodies were read.
+	newlC, _ := pkg.Types.Scope().Lookup("_Newl").(*types.Const)
+	nextFn := lookupFunc(pkg, "Parser.next")
+	runeFn := lookupFunc(pkg, "Parser.rune")
+	gotFn := lookupFunc(pkg, "Parser.got")
+	errPass := lookupFunc(pkg, "Parser.errPass")
+	if newlC == nil || nextFn == nil || runeFn == nil || gotFn == nil || errPass == nil {
+		r.Fatalf("anchors _Newl / Parser.next / rune / got / errPass not found")
+		return
+	}
+	fgs := newFuncGraphs(pkg)
+	reporters := computeMustError(fgs, errPass)
+	adv := map[*types.Func]bool{nextFn: true, runeFn: true}
+	for changed := true; changed; {
+		changed = false
+		for fo, fd := range fgs.decls {
+			if adv[fo] {
+				continue
+			}
+			inspectNoLit(fd.Body, func(m ast.Node) bool {
+				if c, ok := m.(*ast.CallExpr); ok && !adv[fo] {
+					if callee := calleeOf(info, c); callee != nil && adv[callee.Origin()] {
+						adv[fo] = true
+						changed = true
+					}
+				}
+				return true
+			})
+		}
+	}
+	nAfter := 0
+	for _, u := range units {
+		hasInc, hasDec := false, false
+		inspectNoLit(u.body, func(m ast.Node) bool {
+			if s, ok := m.(*ast.IncDecStmt); ok && selectorField(info, s.X) == openF {
+				if s.Tok == token.INC {
+					hasInc = true
+				} else {
+					hasDec = true
+				}
+			}
+			return true
+		})
+		if !hasInc || !hasDec {
+			continue
+		}
+		res := runForward(u.g, flowSpec[bool]{
+			Init:  false,
+			Join:  func(a, b bool) bool { return a || b },
+			Equal: func(a, b bool) bool { return a == b },
+			Node: func(f bool, nd ast.Node) bool {
+				if s, ok := nd.(*ast.IncDecStmt); ok && selectorField(info, s.X) == openF {
+					return s.Tok == token.DEC
+				}
+				return f
+			},
+		})
+		seenKeys := map[string]int{}
+		for _, b := range u.g.Blocks {
+			for i, nd := range b.Nodes {
+				after, ok := res.At(b, i)
+				if !ok || !after {
+					continue
+				}
+				inspectNoLit(nd, func(m ast.Node) bool {
+					c, isCall := m.(*ast.CallExpr)
+					if !isCall {
+						return true
+					}
+					callee := calleeOf(info, c)
+					if callee == nil || !adv[callee.Origin()] || reporters[callee.Origin()] {
+						return true
+					}
+					nAfter++
+					name := "syntax." + strings.TrimPrefix(qualName(u.fo), pkg.PkgPath+".")
+					key := fmt.Sprintf("%s#after the window closes only got(_Newl) advances the lexer: %s", name, exprString(c))
+					seenKeys[key]++
+					if seenKeys[key] > 1 {
+						key += fmt.Sprintf("#%d", seenKeys[key])
+					}
+					okForm := false
+					if callee.Origin() == gotFn && len(c.Args) == 1 {
+						if tv, has := info.Types[c.Args[0]]; has && tv.Value != nil && types.Identical(tv.Type, newlC.Type()) && tv.Value.ExactString() == newlC.Val().ExactString() {
+							okForm = true
+						}
+					}
+					r.Check(okForm, rule, key, c.Pos(), "advances only when the token in hand is a newline, after the pending bodies were read",
+						"after p.openNodes-- and before the next p.openNodes++ the lexer is advanced by something other than got(_Newl): a token of the statement (its terminator, say) is then read with no node open, and if that read reaches the newline the pending here-document bodies are read outside the window — cut there, the error is not incomplete")
+					return true
+				})
+			}
+		}
+	}
+	r.Notef("%s: %d lexer-advancing calls between a window's close and the next open", rule, nAfter)
 }
